@@ -3,7 +3,7 @@
     Model/Conn.v (process_connection after the repairs 3f1bb0a, 56e04ed, 86d9004, 68e2e20,
     200cab6), Model/Resp.v (parser / serializer). *)
 From Ferrous Require Import Base.Bytes Generated Model.Resp Model.Types Model.Server Model.Conn
-  Proofs.RespFacts Proofs.ConnFacts.
+  Model.OutBuf Proofs.RespFacts Proofs.ConnFacts Proofs.OutBufFacts.
 Open Scope Z_scope.
 
 (** Exactly one reply per request frame, whatever the frame is (valid command, unknown
@@ -65,3 +65,25 @@ Example c05_protocol_error_answered :
       fst (decode_out out) = [FSimple (bs "PONG"); FError (bs "ERR Protocol error")]
   end.
 Proof. vm_compute. split; reflexivity. Qed.
+
+(** Below the serialiser (connection.rs send_frame / flush, arithmetic regenerated from the
+    source): whatever the socket accepts at each write - partial writes, a full socket,
+    interruptions - and however sends and flushes interleave, the bytes that reached the
+    wire followed by the bytes still pending are exactly the bytes handed to send_frame, in
+    order: no byte twice, none skipped, none out of place. *)
+Theorem c05_wire_is_what_was_sent :
+  forall ops, let s := ob_run ops in (os_wire s ++ ob_pending (os_buf s) = os_sent s)%list.
+Proof. exact wire_is_sent. Qed.
+Theorem c05_wire_complete_when_drained :
+  forall ops, ob_has_pending (os_buf (ob_run ops)) = false -> os_wire (ob_run ops) = os_sent (ob_run ops).
+Proof. exact wire_complete. Qed.
+(** a socket that stays full is not an error: nothing is dropped, the reply stays owed *)
+Theorem c05_full_socket_keeps_the_reply :
+  forall o, (ob_off o < length (ob_buf o))%nat ->
+  ob_flush o [WBlock; WBlock; WBlock; WBlock; WBlock] = (o, [], [], false).
+Proof. exact block_keeps. Qed.
+Example c05_partial_writes_history :
+  let ops := [OSend (bs "+OK" ++ [13; 10]); OFlush [WAccept 2; WBlock]; OSend (bs ":1" ++ [13; 10]);
+              OFlush [WBlock; WBlock; WBlock; WBlock; WBlock]; OFlush [WAccept 1; WIntr; WAccept 100]] in
+  os_wire (ob_run ops) = bs "+OK" ++ [13; 10] ++ bs ":1" ++ [13; 10] /\ ob_has_pending (os_buf (ob_run ops)) = false.
+Proof. exact partial_history. Qed.
